@@ -76,3 +76,19 @@ for _d in (("n_node",), ("time", "n_node")):
                  _q.format(b=f"implies(pinv[f] < change_ind[p], eqr(result[{_lead}f], {_spec}))"),
                  "0 <= p and p <= n_part"])},
              raises=[("Exception", "False", "only_if")])
+
+
+# ---- the public wrappers (C17 dataflow): the reduction's result is handed on unchanged (no cast back to the source dtype, no
+# re-ordering), attached to the same grid, with the node dimension renamed to the destination element's ------------------------------
+_AG = "uxarray.core.aggregation."
+for _dst in ("face", "edge"):
+    for _dims in (("n_node",), ("time", "n_node"), ("n_face",)):
+        _ok = _dims[-1] == "n_node"
+        _red = f"summary('{_AG}_apply_node_to_{_dst}_aggregation_numpy', uxda, lib_ref('numpy.mean'), aggregation_func_kwargs)"
+        contract(_AG + f"_node_to_{_dst}_aggregation", props=["C17"], variant="dims=" + ",".join(_dims),
+                 params={"uxda": f"obj('UxDataArray', dims={_dims!r})", "aggregation": "'mean'", "aggregation_func_kwargs": "opaque"},
+                 returns="opaque",
+                 ensures=([f"same(result.values, {_red})", "same(result.uxgrid, uxda.uxgrid)", "same(result.name, uxda.name)",
+                           f"result.dims == {tuple(_dims[:-1]) + ('n_' + _dst,)!r}"] if _ok else []),
+                 options={"abstract": True, "summaries": [_AG + f"_apply_node_to_{_dst}_aggregation_numpy"]},
+                 raises=[("ValueError", str(not _ok), "iff")])
